@@ -632,7 +632,7 @@ fn run(opts: &Opts, acc: &mut Acc) {
         }
     });
     acc.mark_exhaustive("json-grid", "int/uint/double/string boundary pools, null, bools, nested array and object");
-    let n = opts.tier.pick(5_000, 200_000);
+    let n = opts.tier.pick(20_000, 1_000_000);
     random_genomes(acc, opts, "json-random", n, 96, |gn, a| {
         let mut g = G::new(gn);
         let v = gen_jsonable(&mut g, 3);
@@ -649,7 +649,7 @@ fn run(opts: &Opts, acc: &mut Acc) {
         });
         acc.mark_exhaustive(&sub, &format!("all 2^{} directed graphs (self-loops included) on {} programs", n * n, n));
     }
-    let n4 = opts.tier.pick(600, 20_000);
+    let n4 = opts.tier.pick(2_000, 50_000);
     random_genomes(acc, opts, "graphs-4", n4, 40, |gn, a| {
         let mut g = G::new(gn);
         let mut edges = Vec::new();
